@@ -156,18 +156,23 @@ def arrival_timing_case(ctx, case):
                 if sut._close_event is not None:
                     break
                 frames = [{"name": "ping"}] if kind == "ping" else [{"name": "stream", "stream_id": 0 if case["role"] == "server" else 1, "offset": 0, "data": b"", "fin": False}] if kind == "stream" else [{"name": "path_challenge", "data": pn.to_bytes(8, "big")}] if kind == "challenge" else [{"name": "padding"}]
+                eliciting = kind != "padding"
                 if move and src[0] == new_addr:
                     if move["pad"]:
                         frames = frames + [{"name": "padding"}] * move["pad"]
                     if move["respond"] and challenges:
-                        frames = frames + [{"name": "path_response", "data": challenges.pop()}]
+                        # the answer to the endpoint's path challenge: together with the frames of this packet, or in a packet of its own
+                        # (PATH_RESPONSE is ack-eliciting like any frame other than ACK, PADDING and CONNECTION_CLOSE)
+                        resp = {"name": "path_response", "data": challenges.pop()}
+                        frames = [resp] if move["respond"] == "alone" else frames + [resp]
+                        eliciting = True
                         validated[0] = True
                 pkt, _ = tk.build_packet(R.encode_frames(frames), pn=pn, pn_len=2)
                 sut.receive_datagram(pkt, src[0], now=tk.now)
                 if src[0] == new_addr:
                     rx_new[0] += len(pkt)
                 sent.add(pn)
-                if kind != "padding" and pn > top:
+                if eliciting and pn > top:
                     arrivals[pn] = tk.now
                 top = max(top, pn)
                 pn += 1
@@ -203,13 +208,13 @@ def arrival_timing_task(ctx, examples, shard):
     from vlib.harness import run_hypothesis
 
     run = st.tuples(st.sampled_from([0.0001, 0.0004, 0.0009, 0.00099, 0.001, 0.0011, 0.003, 0.012, 0.04]), st.sampled_from([1, 3, 10, 40, 120]), st.sampled_from(["ping", "ping", "stream", "padding", "challenge"]))
-    move = st.one_of(st.none(), st.fixed_dictionaries({"at": st.integers(0, 3), "respond": st.booleans(), "pad": st.sampled_from([0, 0, 10, 40, 150])}))
+    move = st.one_of(st.none(), st.fixed_dictionaries({"at": st.integers(0, 3), "respond": st.sampled_from([False, True, "alone"]), "pad": st.sampled_from([0, 0, 10, 40, 150])}))
     strat = st.fixed_dictionaries({"kind": st.just("arrivals"), "role": st.sampled_from(["server", "client"]), "runs": st.lists(run, min_size=1, max_size=6), "move": move, "bulk": st.sampled_from([0, 0, 3000, 40000, 200000])})
     # a peer that moves and then sends little: one or two small ack-eliciting packets, then packets that elicit nothing (the budget for the new address
     # grows while an acknowledgement is owed)
     gap = st.sampled_from([0.0001, 0.0009, 0.003, 0.012, 0.04])
     small = st.tuples(
-        st.lists(run, max_size=1), gap, st.sampled_from([1, 1, 2]), st.sampled_from(["ping", "stream"]), gap, st.sampled_from([1, 2, 5, 20]), st.lists(run, max_size=2), st.booleans(), st.sampled_from([0, 0, 3, 8, 20, 60])
+        st.lists(run, max_size=1), gap, st.sampled_from([1, 1, 2]), st.sampled_from(["ping", "stream"]), gap, st.sampled_from([1, 2, 5, 20]), st.lists(run, max_size=2), st.sampled_from([False, True, "alone", "alone"]), st.sampled_from([0, 0, 3, 8, 20, 60])
     ).map(lambda t: {"kind": "arrivals", "role": "server", "runs": t[0] + [(t[1], t[2], t[3]), (t[4], t[5], "padding")] + t[6], "move": {"at": len(t[0]), "respond": t[7], "pad": t[8]}})
     strat = st.one_of(strat, strat, small)
 
